@@ -134,6 +134,10 @@ CORPUS = [
     'start: pair+\npair: key ":" value ";"\nkey: NAME\n?value: NUM | NAME | obj\nobj: "{" pair* "}"\n' + EXTRA_TERMS + '%ignore " "\n',
     # everyday rule and alias names (they share a namespace with the methods of the transformers the Reconstructor is made of)
     'start: item+\nitem: literal ";" | args ";" | "let" token "=" value ";"\nliteral: NUM | NAME "." NAME -> match\nargs: "(" literal ("," literal)* ")"\ntoken: NAME\n?value: literal | args -> rule\n' + EXTRA_TERMS + '%ignore " "\n',
+    # tree names that no root-only rule of the matcher carries: an alias that starts with an underscore, and a ?start rule that keeps its own node
+    # only when it has several statements
+    '?start: stmt+\nstmt: NAME "=" value ";"\nvalue: NUM | "-" NUM -> _negative | NAME "." NAME -> _path\n' + EXTRA_TERMS + '%ignore " "\n',
+    'start: entry+\nentry: key "=" val ";"\nkey: NAME\nval: NUM -> _num | "[" val ("," val)* "]" -> _list | NAME\n' + EXTRA_TERMS + '%ignore " "\n',
 ]
 
 
